@@ -277,6 +277,13 @@ def gen_cases(rng, tier):
     for types in (["net.tcp.Port[]", "net.udp.Port[]"], ["net.udp.Port[]", "net.tcp.Port[]"], ["string[]", "wstring[]", "uri[]"],
                   ["uint16[]", "net.tcp.Port[]", "uint32[]"]):
         cases.append({"kind": "listcls", "types": types, "values": [I(80), I(443)] if "string[]" not in types else [S("a")]})
+    # --- the hashes of a digest that already sits in a record, assigned one by one: a refused value changes nothing
+    MD5, SHA1 = "d41d8cd98f00b204e9800998ecf8427e", "da39a3ee5e6b4b0d3255bfef95601890afd80709"
+    for start in (["digest", [MD5, SHA1, None]], ["digest", [None, None, None]]):
+        for target in ("d", "dl"):
+            cases.append({"kind": "digestsub", "start": start, "ops": [
+                [target, "md5", "zz" * 16], [target, "md5", "abc"], [target, "md5", "abcd"], [target, "sha1", MD5], [target, "sha256", SHA1],
+                [target, "md5", "900150983cd24fb0d6963f7d28e17f72"], [target, "sha1", "xyz"], [target, "md5", None], [target, "md5", MD5 + "00"]]})
     # --- histories in a FRESH interpreter whose very first construction of a type is a REFUSED one
     for fields, args, ops in (
             ([["boolean", "a"], ["boolean[]", "l"]], [NONE, ["list", []]],
@@ -426,6 +433,23 @@ def run_real(case):
             out.append([n, t, type(v).__name__, v is None or isinstance(v, fieldtype(t))])
         # ... and the two port list types resolved in one process keep their own element classes
         return {"flat": out}
+    if k == "digestsub":
+        # assignments to the hashes of a digest that already sits in a record (`rec.d.md5 = value`)
+        d = RecordDescriptor("t/dg", [("digest", "d"), ("digest[]", "dl")])
+        from harness import values as _V
+        rec = d(d=_V.build(case["start"]), dl=[_V.build(case["start"])])
+        steps = []
+        for target, attr, val in case["ops"]:
+            obj = rec.d if target == "d" else rec.dl[0]
+            before = [obj.md5, obj.sha1, obj.sha256, [None if x is None else x.hex() for x in obj._pack()]]
+            try:
+                setattr(obj, attr, val)
+                ok = True
+            except Exception as e:          # noqa: BLE001
+                ok = type(e).__name__
+            after = [obj.md5, obj.sha1, obj.sha256, [None if x is None else x.hex() for x in obj._pack()]]
+            steps.append({"ok": ok, "before": before, "after": after})
+        return {"dsteps": steps}
     if k == "listcls":
         out = []
         for t in case["types"]:
@@ -599,6 +623,19 @@ def oracle(case, obs):
             if not ok:
                 return (f"grouped record: flat field {n} is declared {t} but holds a {cls} (members declare the name with "
                         f"different types: the first member provides the value AND the type)")
+        return None
+    if k == "digestsub":
+        LEN = {"md5": 32, "sha1": 40, "sha256": 64}
+        for (target, attr, val), st in zip(case["ops"], obs["dsteps"]):
+            valid = val is None or (isinstance(val, str) and len(val) == LEN[attr] and all(c in "0123456789abcdefABCDEF" for c in val))
+            if valid and st["ok"] is not True:
+                return f"digest.{attr} = {val!r} (a well-formed hash) was refused with {st['ok']}"
+            if not valid:
+                if st["ok"] is True:
+                    return f"digest.{attr} = {val!r} (not a {attr} hash) was accepted"
+                if st["after"] != st["before"]:
+                    return (f"digest.{attr} = {val!r} was refused ({st['ok']}) but the digest changed all the same: "
+                            f"{st['before'][:3]} -> {st['after'][:3]} (packed {st['after'][3]})")
         return None
     if k == "listcls":
         for t, classes, ok in obs["lists"]:
@@ -947,7 +984,7 @@ def _braw(spec):
 
 
 def model_op(case, obs):
-    if case["kind"] in ("grpflat", "listcls"):
+    if case["kind"] in ("grpflat", "listcls", "digestsub"):
         return None
     toks = Toks()
     if _has_dtvia(json.loads(json.dumps(case)), "replace_naive"):
@@ -1040,7 +1077,7 @@ def compare(case, obs, m):
 
 
 def nontrivial(case, obs):
-    if case["kind"] in ("grpflat", "listcls"):
+    if case["kind"] in ("grpflat", "listcls", "digestsub"):
         return True
     if case["kind"] == "coerce":
         return "error" in obs or case["value"][0] in ("none", "float", "bytes", "list", "tuple", "dict", "rec", "bytearray") \
@@ -1050,7 +1087,7 @@ def nontrivial(case, obs):
 
 
 def classify(case, obs):
-    if case["kind"] in ("grpflat", "listcls"):
+    if case["kind"] in ("grpflat", "listcls", "digestsub"):
         return case["kind"]
     if case["kind"] == "coerce":
         return [f"coerce:{case['type']}:{obs.get('error', 'accepted')}", f"input:{case['value'][0]}"]
